@@ -21,7 +21,7 @@ from lv.props import common
 from type_inference.research import reference_algebra as _ra     # rendering only
 
 ID = 'C05'
-BUDGET = {'quick': 320, 'thorough': 6000}       # generated base programs
+BUDGET = {'quick': 256, 'thorough': 6000}       # generated base programs
 WALL = {'quick': 1500, 'thorough': 7200}
 RULE = ('base programs from the typed generator (numbers, strings, lists, closed records '
         'and field access, if-then-else, boolean propositions, aggregation incl. '
